@@ -196,6 +196,56 @@ class OpaqueFn:
         return sp.Function(self.name)(*[sp.sympify(S(f)) if not isinstance(f, str) else sp.Symbol(f) for f in flat])
 
 
+class StrLike:
+    """marker: analyser-side value that stands for a string and defines its own + with str"""
+
+
+class Text:
+    """symbolic string: a sequence of pieces; a piece is a str, ('fmt', format, args) for `format % args`, or ('val', value)
+    for an interpolated value of an f-string.  Adjacent literal pieces are merged, so two ways of building the same text compare equal."""
+
+    def __init__(self, pieces=()):
+        out = []
+        for x in pieces:
+            if isinstance(x, Text):
+                xs = x.pieces
+            else:
+                xs = [x]
+            for y in xs:
+                if isinstance(y, str) and out and isinstance(out[-1], str):
+                    out[-1] = out[-1] + y
+                elif y != '':
+                    out.append(y)
+        self.pieces = out
+
+    def __add__(self, o):
+        if isinstance(o, (str, Text)):
+            return Text([self, o])
+        return NotImplemented
+
+    def __radd__(self, o):
+        if isinstance(o, str):
+            return Text([o, self])
+        return NotImplemented
+
+    def __repr__(self):
+        return 'Text(%r)' % (self.pieces,)
+
+    def literal(self):
+        """the text with every formatted piece replaced by a placeholder {k}"""
+        out, k = '', 0
+        for x in self.pieces:
+            if isinstance(x, str):
+                out += x
+            else:
+                out += '{%d}' % k
+                k += 1
+        return out
+
+    def values(self):
+        return [x for x in self.pieces if not isinstance(x, str)]
+
+
 def _norm_vec(v):
     v = np.asarray(v, dtype=object)
     return sp.sqrt(sum(x ** 2 for x in v.flat))
@@ -299,6 +349,7 @@ NP_FUNCS = {
     'numpy.all': lambda x, **k: _all(x), 'numpy.any': lambda x, **k: _any(x),
     'numpy.mean': lambda x, axis=None: np.sum(x, axis=axis) / (S(x.size) if axis is None else S(x.shape[axis])),
     'numpy.conj': lambda x: vmap(sp.conjugate, x),
+    'numpy.logical_not': lambda x: (not x) if isinstance(x, bool) else np.array([not v if isinstance(v, (bool, np.bool_)) else sp.Not(v) for v in np.asarray(x, dtype=object).flat], dtype=object).reshape(np.shape(x)),
     'numpy.real': lambda x: vmap(sp.re, x), 'numpy.imag': lambda x: vmap(sp.im, x),
     'copy.deepcopy': lambda x: _copy(x), 'copy.copy': lambda x: _copy(x),
 }
@@ -401,6 +452,8 @@ class SymEval:
         self.classes = {}      # local class name -> (ClassDef, mro tuple) for instantiation
         self.max_depth = max_depth
         self.trace = []
+        self.text_mode = False  # f-strings / %-formatting become Text values
+        self.globals = {}       # module-level names visible in every inlined function (rule-provided models of imports)
 
     # ------------------------------------------------------------ names
     def dotted(self, node):
@@ -437,6 +490,8 @@ class SymEval:
     def e_Name(self, n, p):
         if n.id in p.env:
             return p.env[n.id]
+        if n.id in self.globals:
+            return self.globals[n.id]
         if n.id in ('True', 'False', 'None'):
             return {'True': True, 'False': False, 'None': None}[n.id]
         if n.id in self.classes:
@@ -452,6 +507,23 @@ class SymEval:
                     'max': lambda *a: sp.Max(*(a[0] if len(a) == 1 else a)), 'list': list, 'tuple': tuple,
                     'isinstance': lambda *a: Opaque, 'complex': lambda a, b=0: a + sp.I * b, 'round': lambda x, n=0: x,
                     'zip': lambda *a: list(zip(*a)), 'enumerate': lambda a: list(enumerate(a)), 'str': str}[n.id]
+        if n.id == 'hasattr':
+            def _hasattr(o, a):
+                if isinstance(o, SymObj):
+                    return a in o.attrs or o.lookup(a)[0] is not None
+                if isinstance(o, (PyStub, str, list, tuple, dict)) or o is None:
+                    return hasattr(o, a)
+                raise Opaque('hasattr on %s' % type(o).__name__)
+            return _hasattr
+        if n.id == 'bool':
+            return lambda x: self.truth(x, n, p)
+        if n.id == 'sorted':
+            def _sorted(x):
+                x = list(x)
+                if all(isinstance(v, str) for v in x) or all(isinstance(v, (int, sp.Integer)) for v in x):
+                    return sorted(x)
+                raise Opaque('sorted() of symbolic values')
+            return _sorted
         raise Opaque('unbound name %s' % n.id)
 
     def e_UnaryOp(self, n, p):
@@ -476,7 +548,13 @@ class SymEval:
             return type(a)(list(a) + list(b))
         if isinstance(a, (list, tuple)) and is_arr(b) or isinstance(b, (list, tuple)) and is_arr(a):
             a, b = _asarr(a), _asarr(b)
-        if isinstance(a, str) or isinstance(b, str):
+        if isinstance(a, (str, Text, StrLike)) or isinstance(b, (str, Text, StrLike)):
+            if isinstance(n.op, ast.Add) and isinstance(a, (str, Text, StrLike)) and isinstance(b, (str, Text, StrLike)):
+                return a + b
+            if isinstance(n.op, ast.Mod) and isinstance(a, str):
+                return Text([('fmt', a, tuple(b) if isinstance(b, (tuple, list)) else (b,))])
+            if isinstance(n.op, ast.Mult) and isinstance(a, str) and isinstance(b, (int, sp.Integer)):
+                return a * int(b)
             raise Opaque('string arithmetic ' + norm(n))
         try:
             return BIN[type(n.op)](a, b)
@@ -515,7 +593,7 @@ class SymEval:
 
     def compare(self, op, a, b, n=None):
         if isinstance(op, (ast.In, ast.NotIn)):
-            if isinstance(b, (dict, list, tuple, set, str)):
+            if isinstance(b, (dict, list, tuple, set, str)) or (isinstance(b, PyStub) and hasattr(b, '__contains__')):
                 r = a in b
                 return r if isinstance(op, ast.In) else not r
             raise Opaque('membership ' + norm(n))
@@ -567,7 +645,19 @@ class SymEval:
         return {self.ev(k, p): self.ev(v, p) for k, v in zip(n.keys, n.values)}
 
     def e_JoinedStr(self, n, p):
-        return norm(n)
+        if not self.text_mode:
+            return norm(n)
+        pieces = []
+        for v in n.values:
+            if isinstance(v, ast.Constant):
+                pieces.append(v.value)
+            else:
+                x = self.ev(v.value, p)
+                pieces.append(x if isinstance(x, (str, Text)) else ('val', x))
+        t = Text(pieces)
+        if all(isinstance(x, str) for x in t.pieces):
+            return ''.join(t.pieces)
+        return t
 
     def e_ListComp(self, n, p):
         if len(n.generators) != 1 or n.generators[0].ifs:
@@ -593,7 +683,7 @@ class SymEval:
 
     def e_Attribute(self, n, p):
         d = self.dotted(n)
-        g = None if (d and d[0] in p.env) else self.resolve_global(n)
+        g = None if (d and (d[0] in p.env or d[0] in self.globals)) else self.resolve_global(n)
         if g is not None:
             if g in NP_CONSTS:
                 return NP_CONSTS[g]
@@ -662,10 +752,30 @@ class SymEval:
                 return lambda k, d=None: base.get(k, d)
             if attr == 'keys':
                 return lambda: list(base.keys())
+            if attr == 'values':
+                return lambda: list(base.values())
+            if attr == 'items':
+                return lambda: list(base.items())
+            if attr == 'update':
+                return base.update
+            if attr == 'setdefault':
+                return base.setdefault
         if isinstance(base, list) and attr in ('append', 'index', 'pop', 'insert', 'extend', 'count', 'copy'):
             return getattr(base, attr)
         if isinstance(base, str) and attr in ('strip', 'split', 'lower', 'upper', 'startswith', 'endswith', 'isalpha', 'isdigit'):
             return getattr(base, attr)
+        if isinstance(base, str) and attr == 'join':
+            def _join(items):
+                items = list(items)
+                if all(isinstance(x, str) for x in items):
+                    return base.join(items)
+                out = []
+                for k, x in enumerate(items):
+                    if k:
+                        out.append(base)
+                    out.append(x)
+                return Text(out)
+            return _join
         raise Opaque('attribute .%s of %s in %s' % (attr, type(base).__name__, norm(n)))
 
     def e_Subscript(self, n, p):
@@ -678,7 +788,7 @@ class SymEval:
                 if idx not in base:
                     raise WouldRaise('KeyError: %s in %s' % (idx, norm(n)))
                 return base[idx]
-            if isinstance(base, (list, tuple)):
+            if isinstance(base, (list, tuple, str)):
                 return base[int(idx)] if not isinstance(idx, slice) else base[idx]
             if is_arr(base):
                 r = base[idx]
@@ -701,7 +811,13 @@ class SymEval:
         if isinstance(v, sp.Integer):
             return int(v)
         if isinstance(v, (list, tuple)):
+            if v and all(isinstance(x, bool) for x in v):
+                return np.array(v, dtype=bool)
+            if any(isinstance(x, str) for x in v):
+                return list(v)
             return [int(x) for x in v]
+        if is_arr(v) and v.dtype == object and v.size and all(isinstance(x, (bool, np.bool_)) for x in v.flat):
+            return v.astype(bool)
         return v
 
     _TYPES = {'int': (int, sp.Integer), 'float': (float, sp.Float, sp.Rational), 'str': (str,), 'tuple': (tuple,), 'list': (list,), 'dict': (dict,),
@@ -893,7 +1009,10 @@ class SymEval:
             if isinstance(base, (dict, PyStub)):
                 base[idx] = v
             elif is_arr(base) or isinstance(base, list):
-                base[idx] = v
+                try:
+                    base[idx] = v
+                except (IndexError, ValueError, TypeError) as e:
+                    raise Opaque('store into %s: %s' % (norm(t), e))
             else:
                 raise Opaque('store into %s' % norm(t))
         elif isinstance(t, ast.Attribute):
@@ -1026,12 +1145,42 @@ class SymEval:
         raise _Continue(p)
 
     def s_Try(self, s, p):
-        # only the try/else/finally bodies on the non-raising path
+        """try body; a path that ends in a syntactic raise/assert failure inside the body continues in the first handler whose type
+        matches (bare, Exception, BaseException or the raised name); exceptions of evaluated library calls are not modelled"""
         paths = self.block(s.body, [p])
-        paths = self.block(s.orelse, paths) if s.orelse else paths
-        return self.block(s.finalbody, paths) if s.finalbody else paths
+        out = []
+        normal = []
+        for q in paths:
+            if q.done == 'raise' and s.handlers and q.raised is not None and any(q.raised is x for b in s.body for x in ast.walk(b)):
+                if isinstance(q.raised, ast.Assert):
+                    name = 'AssertionError'
+                else:
+                    exc = q.raised.exc
+                    name = norm(exc.func if isinstance(exc, ast.Call) else exc) if exc is not None else None
+                h = None
+                for cand in s.handlers:
+                    tys = [] if cand.type is None else ([norm(t) for t in cand.type.elts] if isinstance(cand.type, ast.Tuple) else [norm(cand.type)])
+                    if cand.type is None or name in tys or 'Exception' in tys or 'BaseException' in tys:
+                        h = cand
+                        break
+                if h is not None:
+                    q.done, q.raised = None, None
+                    if h.name:
+                        q.env[h.name] = None
+                    out.extend(self.block(h.body, [q]))
+                    continue
+            if q.done is None:
+                normal.append(q)
+            else:
+                out.append(q)
+        if normal:
+            out.extend(self.block(s.orelse, normal) if s.orelse else normal)
+        return self.block(s.finalbody, out) if s.finalbody else out
 
     def s_With(self, s, p):
+        for it in s.items:
+            if it.optional_vars is not None:
+                self.assign(it.optional_vars, self.ev(it.context_expr, p), p)
         return self.block(s.body, [p])
 
     def s_FunctionDef(self, s, p):
